@@ -133,6 +133,13 @@ func (g *G) wildExpr(d int) *m.E {
 		}
 		e := m.EFilter(pickS(g, "wfl", fl), sub())
 		for i, n := 0, g.intn("wfla", 0, 3); i < n; i++ {
+			if e.S == "batch" && i == 0 {
+				// batch(size, fill) builds size-many elements: like ranges, a
+				// size above a million is outside the claim, so it stays a
+				// small literal (possibly negative or fractional)
+				e.A = append(e.A, pickS(g, "wbatch", []*m.E{m.ENum(0), m.ENum(1), m.ENum(2), m.ENum(3), m.ENum(2.5), m.EUn("-", m.ENum(2)), m.ENum(50), m.EStr("3"), m.ENull()}))
+				continue
+			}
 			e.A = append(e.A, sub())
 		}
 		return e
